@@ -114,6 +114,13 @@ def call_value(self: Exec, f, args, kwargs, node=None):
       raise OutsideSubset(f'{f.ctor}: arity')
     ts = [self.coerce(a, U.field_sort(c.name, fn)).t for a, (fn, _) in zip(args, c.fields)]
     return SV(U, U.mk(c.name, *ts))
+  if isinstance(f, Effect):
+    if kwargs or len(args) != len(f.argsorts):
+      raise OutsideSubset(f'{f.name}: call shape differs from the recorded-effect signature')
+    vals = PyTuple(self.coerce(self.escape(a), s) for a, s in zip(args, f.argsorts))
+    self.ghost.setdefault('calls:' + f.name, []).append(vals)
+    self.used_externals.add(f.name)
+    return self.fresh(f.ret, 'r_' + f.name) if f.ret is not None else NONEV
   if isinstance(f, Skip):
     self.skipped.add(f.name)
     return NONEV
